@@ -1,8 +1,8 @@
 """C10 generators.
 
 (1) `gen_script`: fold/par-heavy well-scoped AIR scripts (in addition to lib/airgen.py profiles): streams filled
-    from several peers (several generations), stream folds with `next` in seq / par / first position, parts after
-    `next`, last instructions, nested stream folds, recursive appends under a guard, `new` scopes around streams,
+    from several peers (several generations), stream folds with `next` in seq / par position and under xor (the only place the
+    validator lets something follow a `next`), last instructions, nested stream folds, recursive appends under a guard, `new` scopes around streams,
     catchable failures inside iterations and par branches (with and without xor), canon inside folds.
 (2) `gen_tree`: driver forests of coq/model/WfTrace.v (`dts`) as (Coq term, op list for harness/src/bin/handler.rs).
 
@@ -173,29 +173,34 @@ def _canon_result(d):
 
 
 class TGen:
-    """Random driver forests. `known`: probability that a call/canon is executed rather than sent."""
+    """Random driver forests.  `shape` (a Random) decides the structure -- re-seeding it identically gives "the same
+    script" again; `know` (a Random) decides what this run knows: whether a call / canon is executed or only
+    requested (`known` = probability of executed), whether an iteration exits early, how many generations a
+    fold sees."""
 
-    def __init__(self, rng, known, peer):
-        self.r = rng
+    def __init__(self, shape, know, known, peer):
+        self.r = shape
+        self.k = know
         self.known = known
         self.peer = peer
         self.fold_ids = 0
         self.cid = 0
 
     def leaf(self, ops):
-        r = self.r
+        r, k = self.r, self.k
         x = r.random()
+        raw = r.random() < 0.2
         if x < 0.45:
             self.cid += 1
             kind = r.choice(["scalar", "scalar", "stream", "unused", "failed"])
             cid = "c%d" % self.cid
-            if r.random() < self.known:
+            if k.random() < self.known:
                 d = [kind, cid, 0] if kind == "stream" else [kind, cid]
             else:
-                d = ["sent", self.peer] if r.random() < 0.7 else ["sent_id", self.peer, r.randrange(1, 9)]
-                if r.random() < 0.15:
+                d = ["sent", self.peer] if k.random() < 0.7 else ["sent_id", self.peer, k.randrange(1, 9)]
+                if k.random() < 0.15:
                     d = None
-            if r.random() < 0.8:
+            if not raw:
                 ops.append(["call_auto", d, True])
                 return "(DCall (CallAuto %s true))" % ("(Some %s)" % _call_result(d) if d else "None")
             ops.append(["call_start"])
@@ -204,29 +209,25 @@ class TGen:
             return "(DCall (CallRaw %s))" % ("(Some %s)" % _call_result(d) if d else "None")
         if x < 0.8:
             g = r.randrange(3)
-            if r.random() < 0.8:
+            if not raw:
                 ops.append(["ap_auto", g])
                 return "(DAp (ApAuto %d))" % g
             ops.append(["ap_start"])
             ops.append(["ap_end", [g]])
             return "(DAp (ApRaw [%d]))" % g
         self.cid += 1
-        d = ["cexec", "cn%d" % self.cid] if r.random() < self.known else ["csent", self.peer]
+        d = ["cexec", "cn%d" % self.cid] if k.random() < self.known else ["csent", self.peer]
         ops.append(["canon_auto", d, True])
         return "(DCanon (CanonAuto %s true))" % _canon_result(d)
 
-    def vsel(self):
-        r = self.r
-        return r.randrange(0, 6)
-
     def dt(self, depth, ops):
-        r = self.r
+        r, k = self.r, self.k
         x = r.random()
         if depth > 0 and x < 0.25:
             ops.append(["par_start"])
-            a = self.dts(depth - 1, ops)
+            a, _ = self.dts(depth - 1, ops, cut=True)
             ops.append(["par_end", True])
-            b = self.dts(depth - 1, ops)
+            b, _ = self.dts(depth - 1, ops, cut=True)
             ops.append(["par_end", False])
             return "(DPar %s %s)" % (a, b)
         if depth > 0 and x < 0.5:
@@ -234,12 +235,16 @@ class TGen:
             fid = self.fold_ids
             ops.append(["fold_start", fid])
             gs = []
-            for _ in range(r.choice([0, 1, 1, 2, 3])):
-                v = self.vsel()
-                ops.append(["iter_nth", fid, v])
-                b = self.body(fid, depth - 1, ops, r.choice([1, 2, 3, 4]))
-                ops.append(["gen_end", fid])
-                gs.append((v, b))
+            ngens = r.choice([0, 1, 1, 2, 3])
+            seen = ngens if k.random() < 0.7 else k.randrange(0, ngens + 1)     # later generations not there yet
+            for gi in range(ngens):
+                sink = ops if gi < seen else []
+                v = r.randrange(0, 6)
+                sink.append(["iter_nth", fid, v])
+                b = self.body(fid, depth - 1, sink, r.choice([1, 2, 3, 4]))
+                sink.append(["gen_end", fid])
+                if gi < seen:
+                    gs.append((v, b))
             ops.append(["fold_end", fid])
             t = "GNil"
             for v, b in reversed(gs):
@@ -247,38 +252,50 @@ class TGen:
             return "(DFold %d %s)" % (fid, t)
         return self.leaf(ops)
 
-    def dts(self, depth, ops, n=None):
-        r = self.r
+    def dts(self, depth, ops, n=None, cut=False):
+        """`cut`: this sequence may be cut short by a catchable error (decided by `know`)"""
+        r, k = self.r, self.k
         n = r.choice([0, 1, 1, 2, 3]) if n is None else n
-        items = [self.dt(depth, ops) for _ in range(n)]
+        keep = n
+        if cut and k.random() < 0.12:
+            keep = k.randrange(0, n + 1)
+        items = []
+        for i in range(n):
+            sink = ops if i < keep else []
+            it = self.dt(depth, sink)
+            if i < keep:
+                items.append(it)
         t = "DNil"
         for i in reversed(items):
             t = "(DCons %s %s)" % (i, t)
-        return t
+        return t, keep < n
 
     def body(self, fid, depth, ops, remaining):
         """one execution of the body of fold `fid`; `remaining` = values left in the generation (this one included)"""
-        r = self.r
-        if r.random() < 0.15:
-            return "(BPlain %s)" % self.dts(depth, ops)          # next not reached (failed before it / no next)
-        before = self.dts(depth, ops, r.choice([0, 1, 1, 2]))
+        r, k = self.r, self.k
+        no_next = r.random() < 0.08                       # a body without next
+        before, was_cut = self.dts(depth, ops, r.choice([0, 1, 1, 2]), cut=True)
+        if no_next or was_cut or k.random() < 0.06:       # next not reached
+            self.hole(fid, depth, [], remaining)          # keep the shape stream in step
+            self.dts(depth, [], r.choice([0, 0, 1, 2]))
+            return "(BPlain %s)" % before
         h = self.hole(fid, depth, ops, remaining)
-        after = self.dts(depth, ops, r.choice([0, 0, 1, 2]))
+        after, _ = self.dts(depth, ops, r.choice([0, 0, 1, 2]), cut=True)
         return "(BHole %s %s %s)" % (before, h, after)
 
     def hole(self, fid, depth, ops, remaining):
-        r = self.r
+        r, k = self.r, self.k
         x = r.random()
         if depth > 0 and x < 0.2:
             ops.append(["par_start"])
             b = self.body(fid, depth - 1, ops, remaining)
             ops.append(["par_end", True])
-            rr = self.dts(depth - 1, ops)
+            rr, _ = self.dts(depth - 1, ops)
             ops.append(["par_end", False])
             return "(HParL %s %s)" % (b, rr)
         if depth > 0 and x < 0.45:
             ops.append(["par_start"])
-            ll = self.dts(depth - 1, ops)
+            ll, _ = self.dts(depth - 1, ops)
             ops.append(["par_end", True])
             b = self.body(fid, depth - 1, ops, remaining)
             ops.append(["par_end", False])
@@ -286,33 +303,30 @@ class TGen:
         ops.append(["iter_end", fid])
         if remaining <= 1:
             ops.append(["back", fid])
-            last = self.dts(depth, ops, r.choice([0, 0, 1]))
+            last, _ = self.dts(depth, ops, r.choice([0, 0, 1]))
             return "(HNextEnd %s)" % last
-        v = self.vsel()
+        v = r.randrange(0, 6)
         ops.append(["iter_nth", fid, v])
         b = self.body(fid, depth, ops, remaining - 1)
-        back = r.random() < 0.85
+        back = k.random() < 0.9                            # false: the inner body failed catchably
         if back:
             ops.append(["back", fid])
         return "(HNextMore (VNth %d) %s %s)" % (v, b, "true" if back else "false")
 
 
-def gen_tree(rng, known, peer, depth=None):
-    """returns (coq term : dts, ops)"""
-    g = TGen(rng, known, peer)
+def gen_tree(shape, know, known, peer):
+    """returns (Coq term : dts string, ops for harness/src/bin/handler.rs)"""
+    g = TGen(shape, know, known, peer)
     ops = []
-    # a few stream values first so that iteration positions exist
-    pre = []
-    for _ in range(rng.choice([0, 2, 3])):
-        pre.append(g.leaf(ops) if rng.random() < 0.3 else _ap(ops, rng))
-    items = pre + [g.dt(depth if depth is not None else rng.choice([1, 2, 2, 3]), ops) for _ in range(rng.choice([1, 2, 3]))]
+    items = []
+    for _ in range(shape.choice([0, 2, 3])):               # a few stream values first so that iteration positions exist
+        gen = shape.randrange(2)
+        ops.append(["ap_auto", gen])
+        items.append("(DAp (ApAuto %d))" % gen)
+    depth = shape.choice([1, 2, 2, 3])
+    for _ in range(shape.choice([1, 2, 3])):
+        items.append(g.dt(depth, ops))
     t = "DNil"
     for i in reversed(items):
         t = "(DCons %s %s)" % (i, t)
     return t, ops
-
-
-def _ap(ops, rng):
-    g = rng.randrange(2)
-    ops.append(["ap_auto", g])
-    return "(DAp (ApAuto %d))" % g
